@@ -4,14 +4,14 @@ from .mir import callee, callee_matches, Prov
 from .ctx import where_of
 
 EXPLANATION = (
-    "Rules over the MIR of the library machinery: (fresh-env) every declaration of a library body is evaluated in "
-    "an environment whose only origin is one LexicalScope::new() made in eval_library_definition — never self.env "
-    "or a parameter; (exports-only) the returned Library's map is written only in the loop over export specs, keyed "
-    "by the external name, valued by a lookup of the internal name in that fresh environment, an unbound export "
-    "being an Err; (export-parse) (rename a b) is parsed as internal a, external b; (import-copies) importing "
-    "defines new bindings in the importer's environment; (single-instance) instantiation of a library (evaluating "
-    "its definition or calling its native factory) is reachable from an import only through the miss edge of a "
-    "lookup in an instance cache that is filled after success and invalidated when a factory is re-registered.")
+    'Decision tables of the library machinery: (fresh-env, exports-only) eval_library_definition on (define- '
+    'library NAME (import I) (export a (rename b bb)) (begin S1 S2)): one fresh root environment receives the '
+    "imports, the body and the export lookups, never the interpreter's own environment; the library exposes "
+    'exactly the exported names under their external names; an unbound export is an error; (export-parse) (rename '
+    "a b) is internal a, external b; (import-copies) importing defines new bindings in the importer's "
+    'environment; (single-instance) get_library: first use instantiates once (AST and native factories, '
+    'registered or found on disk) and caches, a second use returns the cached instance without instantiating, a '
+    'failed instantiation caches nothing.')
 NOT_DECIDED = ("observational equivalence with a reference module system; what library bodies compute.")
 
 
